@@ -56,6 +56,12 @@ impl OperationControl for Repeat {
         } else {
             self.min
         };
+        #[cfg(regexml_verif)]
+        let min = if crate::verif::ablated(crate::verif::ABLATE_EMPTY_ITERATION_REWRITE) {
+            self.min
+        } else {
+            min
+        };
         Operation::from(Repeat {
             operation: Box::new(operation),
             min,
@@ -127,9 +133,17 @@ impl OperationControl for Repeat {
                 if let Some(next) = it.next() {
                     #[cfg(regexml_verif)]
                     zero_width.note(p, next);
+                    #[cfg(regexml_verif)]
+                    let stop = next == p
+                        && iterators.len() + 1 - zero >= min
+                        && crate::verif::ablated(crate::verif::ABLATE_EMPTY_ITERATION_EXTENSION);
                     p = next;
                     iterators.push(it);
                     positions.push(p);
+                    #[cfg(regexml_verif)]
+                    if stop {
+                        break;
+                    }
                 } else if iterators.is_empty() {
                     return Box::new(std::iter::empty());
                 } else {
@@ -147,7 +161,11 @@ impl OperationControl for Repeat {
                 min,
             );
             #[cfg(regexml_verif)]
-            let iter = GreedyRepeatIterator { zero_width, ..iter };
+            let iter = GreedyRepeatIterator {
+                zero_width,
+                zero,
+                ..iter
+            };
             if needs_progress_guard {
                 Box::new(ForceProgressIterator::new(Box::new(iter)))
             } else {
@@ -203,6 +221,9 @@ struct GreedyRepeatIterator<'a> {
     bound: usize,
     #[cfg(regexml_verif)]
     zero_width: crate::verif::ZeroWidth,
+    // entries on the stack that are not iterations (the one for zero occurrences)
+    #[cfg(regexml_verif)]
+    zero: usize,
 }
 
 impl<'a> GreedyRepeatIterator<'a> {
@@ -224,6 +245,8 @@ impl<'a> GreedyRepeatIterator<'a> {
             bound,
             #[cfg(regexml_verif)]
             zero_width: Default::default(),
+            #[cfg(regexml_verif)]
+            zero: 0,
         }
     }
 }
@@ -249,14 +272,27 @@ impl Iterator for GreedyRepeatIterator<'_> {
                     if let Some(&from) = self.positions.last() {
                         self.zero_width.note(from, p);
                     }
+                    #[cfg(regexml_verif)]
+                    let mut empty = self.positions.last() == Some(&p);
                     self.positions.push(p);
                     while self.iterators.len() < self.bound {
                         #[cfg(regexml_verif)]
                         crate::verif::tick();
+                        #[cfg(regexml_verif)]
+                        if empty
+                            && self.iterators.len() - self.zero >= self.min
+                            && crate::verif::ablated(crate::verif::ABLATE_EMPTY_ITERATION_EXTENSION)
+                        {
+                            break;
+                        }
                         let mut it = self.operation.matches_iter(self.matcher, p);
                         if let Some(next) = it.next() {
                             #[cfg(regexml_verif)]
                             self.zero_width.note(p, next);
+                            #[cfg(regexml_verif)]
+                            {
+                                empty = next == p;
+                            }
                             p = next;
                             self.iterators.push(it);
                             self.positions.push(p)
